@@ -57,6 +57,8 @@ func c17Concrete(es []c17Entry) []corev1alpha1.ObjectSetProbe {
 				p.Probes = append(p.Probes, corev1alpha1.Probe{FieldsEqual: &corev1alpha1.ProbeFieldsEqualSpec{FieldA: ".spec.a", FieldB: ".status.a"}})
 			case "cel":
 				p.Probes = append(p.Probes, corev1alpha1.Probe{CEL: &corev1alpha1.ProbeCELSpec{Rule: "self.spec.x > 0", Message: "x must be positive"}})
+			case "celEmpty":
+				p.Probes = append(p.Probes, corev1alpha1.Probe{CEL: &corev1alpha1.ProbeCELSpec{Rule: "self.spec.x > 0", Message: ""}})
 			case "celNonBool":
 				p.Probes = append(p.Probes, corev1alpha1.Probe{CEL: &corev1alpha1.ProbeCELSpec{Rule: "self.spec.x", Message: "not a bool"}})
 			}
@@ -113,7 +115,7 @@ func c17Object(o c17Obj) *unstructured.Unstructured {
 }
 
 func c17Entries() []c17Entry {
-	subsets := [][]string{{}, {"condA"}, {"condB"}, {"fields"}, {"cel"}, {"condA", "fields"}, {"condA", "condB"}, {"cel", "condA", "fields"}, {"celNonBool"}}
+	subsets := [][]string{{}, {"condA"}, {"condB"}, {"fields"}, {"cel"}, {"condA", "fields"}, {"condA", "condB"}, {"cel", "condA", "fields"}, {"celNonBool"}, {"celEmpty"}, {"celEmpty", "fields"}}
 	var out []c17Entry
 	for _, k := range []string{"none", "match", "mismatch"} {
 		for _, l := range []string{"none", "match", "mismatch"} {
